@@ -51,6 +51,31 @@ CLAIMS['C02'] = dict(
     technique="Lean 4 refinement proof (implementation model refines specification encoder, induction over the universe) + differential check against Spec.enc",
     design_ref="§5 C02")
 
+CLAIMS['C04'] = dict(
+    text=("Kernel-checked theorems: C04_valid_accepted_partial (every valid encoding is accepted with the specified "
+          "value; plain types), C04_unknown_tag / C04_bool_tag (no tag outside the variant tags is ever accepted, any "
+          "sum), C04_nan_rejected, C04_zero_rejected, C04_utf8_rejected, C04_strict_rejects_unsorted / "
+          "C04_lax_accepts_unsorted (the mode's only effect on sets), C04_indexSet_counterexample (finding F6, "
+          "kernel-decided and replayed on the real code, listed as known finding). Differential run of from_slice / "
+          "try_from_slice on truncations, tag and byte corruptions, 0xFFFFFFFF windows, swapped/duplicated entries and "
+          "random strings in both modes, with re-encode oracles (strict: accepted bytes re-encode to themselves). "
+          "Partial: the converse (accepted => well-formed encoding) is carried by the oracle, not yet by a theorem."),
+    technique="Lean 4 proof (acceptance/rejection lemmas over the universe, kernel-decided counterexample) + differential check with re-encode oracle",
+    design_ref="§5 C04")
+
+CLAIMS['C03'] = dict(
+    text=("Kernel-checked theorems: C03_wrappers(_nested) (every transparent wrapper is invisible on the wire), "
+          "C03_fast_path / C03_fast_path_toVec (the u8 bulk path delivers the bytes of the per-element path, for every "
+          "length), C03_deque_split (any ring-buffer split encodes like the contiguous deque), C03_seq_kinds "
+          "(Vec/[T]/Box<[T]>/Cow/Rc slices agree). Differential run: for every catalogue type two representations of "
+          "one logical value (same value seed, different insertion order / reserve / shrink / rotation / hasher state; "
+          "three BuildHashers incl. an all-collide one) are encoded; the observed iteration order is given to the "
+          "model, which sorts itself; oracle: identical bytes, repeated serialization identical, seven wrappers "
+          "identical. Partial: permutation-invariance of the hash-set/map sort is tied by the differential run and "
+          "the sort model, not yet by a theorem (needs the order laws on key values)."),
+    technique="Lean 4 proof (wrapper/fast-path/deque lemmas via the spec refinement) + differential check over representation pairs",
+    design_ref="§5 C03")
+
 NOT_YET = {
 }
 
